@@ -1,18 +1,22 @@
 #!/bin/bash
 # usage: run.sh check <ID> [quick|thorough] | run.sh replay <file> | run.sh build
 # Rebuilds the harness from /repo's CURRENT working tree (overlay regenerated every time) and runs it.
+# VERIF_MUTANT=<file.json> applies a deliberate property-breaking edit through the overlay (selftest only).
 set -u
-cd /verif
+ROOT=$(cd "$(dirname "$0")" && pwd)
+cd "$ROOT"
+export VERIF_ROOT=$ROOT
+export REPO=${REPO:-/repo}
 export GOFLAGS=-mod=mod GOPROXY=off GOSUMDB=off GOTOOLCHAIN=local
-export GOCACHE=/verif/.gocache
+export GOCACHE=${GOCACHE:-/verif/.gocache}
 export CGO_ENABLED=0
-mkdir -p .build bin
+mkdir -p .build bin evidence
 build() {
-  python3 /verif/mkoverlay.py /repo /verif/.build ${VERIF_MUTANT:-} || { echo "HARNESS-ERROR overlay generation failed"; exit 2; }
-  cp /repo/go.sum harness/go.sum 2>/dev/null
-  (cd harness && go build -tags verif -overlay /verif/.build/overlay.json -o /verif/bin/verif ./cmd/verif) > .build/build.log 2>&1
+  python3 "$ROOT/mkoverlay.py" "$REPO" "$ROOT/.build" ${VERIF_MUTANT:-} || { echo "HARNESS-ERROR overlay generation failed"; exit 2; }
+  cp "$REPO/go.sum" harness/go.sum 2>/dev/null
+  (cd harness && go build -tags verif -overlay "$ROOT/.build/overlay.json" -o "$ROOT/bin/verif" ./cmd/verif) > .build/build.log 2>&1
   if [ $? -ne 0 ]; then
-    echo "BUILD-FAILURE (not a property violation): /repo with hooks does not build" ; tail -30 .build/build.log; exit 2
+    echo "BUILD-FAILURE (not a property violation): $REPO with hooks does not build" ; tail -30 .build/build.log; exit 2
   fi
 }
 cmd=${1:-}
@@ -21,9 +25,9 @@ case "$cmd" in
   check)
     build
     tier=${3:-${VERIF_TIER:-quick}}
-    exec /verif/bin/verif check "$2" --tier "$tier" ;;
+    exec "$ROOT/bin/verif" check "$2" --tier "$tier" ;;
   replay)
     build
-    exec /verif/bin/verif replay "$2" ;;
+    exec "$ROOT/bin/verif" replay "$2" ;;
   *) echo "usage: run.sh check <ID> [tier] | replay <file> | build"; exit 2 ;;
 esac
